@@ -147,4 +147,57 @@ PassFill(c, st, FixedFill) ==
         endv == IF FixedFill THEN st.last ELSE Len(st.rev)
     IN [st EXCEPT !.rev = [k \in DOMAIN st.rev |-> IF k - 1 > st.old /\ k - 1 <= nb THEN endv ELSE st.rev[k]],
                   !.i = 0]
+
+\* ---------------------------------------------------------------------------------
+\* Object histories (added; nothing above is changed).  A Binner object is a state
+\* machine: one data array, a sequence of calls on the SAME object.
+\*   history  h  == [x : Seq(Int), hasw : BOOLEAN, calls : Seq(call), ...]
+\*   call        == [op : {"dohist","calc_stats"}, mode : {"binsize","nbin","nperbin","none"},
+\*                   b, hasmin, min, hasmax, max, rev : BOOLEAN, cs : BOOLEAN]
+\* The property quantifies over (data, bin specification, limits) only: what the object
+\* holds after call k must be an allowed outcome of the LAST dohist call on the data,
+\* whatever was called before (HOStepFailing).  calc_stats must leave hist/rev alone.
+HOCase(h, cl) == [x |-> h.x, mode |-> cl.mode, b |-> cl.b,
+                  hasmin |-> cl.hasmin, min |-> cl.min, hasmax |-> cl.hasmax, max |-> cl.max]
+
+HOPtrOK(nb, o) ==
+    /\ Len(o.rev) >= nb + 1
+    /\ o.rev[1] = nb + 1
+    /\ \A i \in 1..nb : o.rev[i] <= o.rev[i + 1]
+    /\ o.rev[nb + 1] <= Len(o.rev)
+
+\* equal-occupancy calls (nperbin) are steps of a history too; the statement fixes their
+\* bins only through the partition clauses: every datum within the limits is counted once,
+\* the slices hold original indices ordered by value (ties in original order), their
+\* lengths are the counts.  (How many data go to which bin is property C14's business.)
+HOPartFailing(c, o) ==
+    IF o.err # "none" THEN (IF NoData(c) THEN {} ELSE {"unexpected_error"})
+    ELSE IF NoData(c) THEN {"nodata_not_rejected"}
+    ELSE LET nb == Len(o.hist) IN
+         (IF VSum(o.hist) = Cardinality(Limited(c)) THEN {} ELSE {"counts"}) \cup
+         (IF ~o.hasrev THEN {}
+          ELSE IF ~HOPtrOK(nb, o) THEN {"rev_pointers"}
+          ELSE LET all == [k \in 1..(o.rev[nb + 1] - o.rev[1]) |-> o.rev[o.rev[1] + k] + 1]
+               IN (IF \A i \in 0..(nb - 1) : Len(Slice(o, i)) = o.hist[i + 1] THEN {} ELSE {"rev_slice_len_ne_hist"}) \cup
+                  (IF \A k \in DOMAIN all : all[k] \in Limited(c) THEN {} ELSE {"rev_slice_members"}) \cup
+                  (IF \A k \in 1..(Len(all) - 1) : LET p == all[k]  q == all[k + 1] IN
+                         (p \in 1..N(c) /\ q \in 1..N(c)) => (c.x[p] < c.x[q] \/ (c.x[p] = c.x[q] /\ p < q))
+                   THEN {} ELSE {"rev_slice_order"}) \cup
+                  (IF Limited(c) \subseteq VRange(all) THEN {} ELSE {"rev_incomplete"}))
+
+\* index of the last dohist call among calls[1..k]; 0 if none
+RECURSIVE HOLastDo(_, _)
+HOLastDo(h, k) == IF k = 0 THEN 0 ELSE IF h.calls[k].op = "dohist" THEN k ELSE HOLastDo(h, k - 1)
+
+\* clauses violated by what the object shows (o) after call number k of history h
+HOStepFailing(h, k, o) ==
+    LET m == HOLastDo(h, k) IN
+    IF m = 0 THEN {}                      \* calc_stats before any dohist: the statement is silent
+    ELSE LET cl == h.calls[m]
+             cc == HOCase(h, cl)
+         IN IF cl.mode = "nperbin"
+            THEN HOPartFailing(cc, o) \cup
+                 (IF o.err = "none" /\ ~NoData(cc) /\ cl.rev /\ ~o.hasrev THEN {"rev_missing"} ELSE {})
+            ELSE Failing(cc, o) \cup
+                 (IF o.err = "none" /\ ~NoData(cc) /\ ~Degenerate(cc) /\ cl.rev /\ ~o.hasrev THEN {"rev_missing"} ELSE {})
 =============================================================================
